@@ -44,6 +44,9 @@
 (*   C20: ArcSameOrbit, ArcLagrange: the two end points of a 90 / 270 deg  *)
 (*        arc are joined by the Keplerian arc whose end-point velocities   *)
 (*        are the lattice velocities - what a Lambert solver must return.  *)
+(*        ArcMinimumEnergy: the arcs between the two "mirror points"       *)
+(*        (-2ae, +-p) are exactly the minimum-energy transfers of their    *)
+(*        chord, i.e. their time of flight is Lambert's t_min.             *)
 (*                                                                         *)
 (* SINGULAR CASES.  case = "IE" inclined eccentric, "EE" equatorial        *)
 (* eccentric, "IC" inclined circular, "EC" equatorial circular; undefined  *)
@@ -92,7 +95,7 @@ Fam == [ c0    |-> [mu |-> 4,   a |-> 4,   e |-> <<0, 1>>],
          e45   |-> [mu |-> 36,  a |-> 25,  e |-> <<4, 5>>] ]
 \* sets named by the cfg files (cfg syntax cannot spell them)
 FamC12Quick == {"c0", "e35", "e513"}
-FamC20Quick == {"c0", "e35", "e2029"}
+FamC20Quick == {"c0", "e35", "e513"}
 FamMutant   == {"c0", "e35"}
 FamAll      == DOMAIN Fam
 KindsAll    == {"cube", "tilt"}
@@ -128,14 +131,22 @@ Orients == (IF "cube" \in OrientKinds THEN CubeRots ELSE {}) \cup (IF "tilt" \in
 
 \* ------------------------------------------------- the orbit in its own plane
 \* coe2eci: r_pqw = p/(1+e cos nu) [cos nu, sin nu, 0];  v_pqw = sqrt(mu/p) [-sin nu, e + cos nu, 0]
-Perifocal(mu, sma, ecc, k) ==
-  LET c  == Q(CosQ(k))
-      s  == Q(SinQ(k))
-      p  == QMul(sma, QSub(One, QSq(ecc)))
+PerifocalCS(mu, sma, ecc, c, s) ==            \* c, s = exact cosine / sine of the true anomaly
+  LET p  == QMul(sma, QSub(One, QSq(ecc)))
       rm == QDiv(p, QAdd(One, QMul(ecc, c)))
       vp == QSqrt(QDiv(mu, p))
   IN << <<QMul(rm, c), QMul(rm, s), Zero>>, <<QMul(vp, QNeg(s)), QMul(vp, QAdd(ecc, c)), Zero>> >>
+Perifocal(mu, sma, ecc, k) == PerifocalCS(mu, sma, ecc, Q(CosQ(k)), Q(SinQ(k)))
 StateAt(f, M, k) == LET pq == Perifocal(Q(f.mu), Q(f.a), f.e, k) IN <<MatVec(M, pq[1]), MatVec(M, pq[2])>>
+StateAtCS(f, M, c, s) == LET pq == PerifocalCS(Q(f.mu), Q(f.a), f.e, c, s) IN <<MatVec(M, pq[1]), MatVec(M, pq[2])>>
+\* The two points of the ellipse on the line through the VACANT focus perpendicular to the major
+\* axis (mirror images of the ends of the latus rectum): perifocal (-2ae, +-p), radius 2a - p,
+\*   cos nu = -2e/(1+e^2),  sin nu = +-(1-e^2)/(1+e^2)     - rational.
+\* Their chord contains the vacant focus, so r1 + r2 + chord = 4a: the orbit is the MINIMUM-ENERGY
+\* ellipse of that chord and the time of flight between them is exactly t_min of Lambert's problem.
+\* Eccentric anomaly pi -+ acos(e) (mirror of cos E = e), mean anomaly by Kepler's equation.
+MirrorCos(f) == QDiv(QMul(Q(-2), f.e), QAdd(One, QSq(f.e)))
+MirrorSin(f) == QDiv(QSub(One, QSq(f.e)), QAdd(One, QSq(f.e)))
 
 \* eccentric and mean anomaly at nu = k quarter turns:  cos E = (e + cos nu)/(1 + e cos nu)
 CosSinE(f, k) == CASE k % 4 = 0 -> <<One, Zero>>
@@ -182,11 +193,11 @@ Rotate == /\ pc = "pqw"
 VectorsOf(mu, r, v) ==
   LET rmag == QSqrt(Dot(r, r))
       v2   == Dot(v, v)
-      en   == QSub(QDiv(v2, Q(2)), QDiv(mu, rmag))                         \* getOrbitalEnergy
+      en   == QSubL(QDiv(v2, Q(2)), QDiv(mu, rmag))                         \* getOrbitalEnergy
       sma  == QDiv(QNeg(mu), QMul(Q(2), en))                                \* getSemiMajorAxis
       h    == Cross(r, v)                                                   \* getAngularMomentum
       ev   == VScale(QDiv(One, mu),                                         \* getEccentricity
-                     VSub(VScale(QSub(v2, QDiv(mu, rmag)), r), VScale(Dot(r, v), v)))
+                     VSub(VScale(QSubL(v2, QDiv(mu, rmag)), r), VScale(Dot(r, v), v)))
       n    == Cross(<<Zero, Zero, One>>, h)                                 \* getLineOfNodes
   IN [rmag |-> rmag, v2 |-> v2, energy |-> en, sma |-> sma, h |-> h, evec |-> ev,
       ecc |-> QSqrt(Dot(ev, ev)), node |-> n, rdotv |-> Dot(r, v)]
@@ -259,17 +270,41 @@ Equinoctial ==
 
 \* C20: a transfer of dq quarter turns (90 deg short way, 270 deg long way) along the same orbit
 LambertOk == QLe(F.e, <<7, 10>>)
+\* kinds: "q1" / "q3" quarter-turn arcs from the posed anomaly (90 deg short way, 270 deg long way);
+\* "meS" / "meL" the minimum-energy arc between the two mirror points, through apoapsis (short way) /
+\* through periapsis (long way) - posed once per orbit (q = 0), eccentric families only
+\* (the mirror points have denominators (1+e^2): posed for the families whose invariants stay below 2^31)
+ArcKinds == {"q1", "q3", "meS", "meL"}
+MinEnergyFamilies == {"e35", "e513", "e817", "e725"}
 PoseArc == /\ pc = "done" /\ WithArcs /\ LambertOk
-           /\ \E dq \in {1, 3} : arc' = [dq |-> dq]
+           /\ \E k \in ArcKinds : /\ (k \in {"meS", "meL"} => q = 0 /\ fam \in MinEnergyFamilies)
+                                  /\ arc' = [kind |-> k]
            /\ pc' = "arcposed" /\ UNCHANGED <<fam, rot, q, rv, vec, cls, el, eqe>>
 ComputeArc ==
   /\ pc = "arcposed"
-  /\ LET k2  == (q + arc.dq) % 4
-         rv2 == StateAt(F, rot, k2)
-         dM  == TSub(MeanAnomT(F, k2), MeanAnomT(F, q))
-         tof == IF k2 < q THEN TAdd(dM, <<Q(2), Zero, Zero>>) ELSE dM               \* less than one revolution
-     IN arc' = [dq |-> arc.dq, k2 |-> k2, r1 |-> rv[1], v1 |-> rv[2], r2 |-> rv2[1], v2 |-> rv2[2],
-                tof |-> tof, tm |-> IF arc.dq = 1 THEN 1 ELSE -1]
+  /\ IF arc.kind \in {"q1", "q3"}
+     THEN LET dq  == IF arc.kind = "q1" THEN 1 ELSE 3
+              k2  == (q + dq) % 4
+              rv2 == StateAt(F, rot, k2)
+              dM  == TSub(MeanAnomT(F, k2), MeanAnomT(F, q))
+              tof == IF k2 < q THEN TAdd(dM, <<Q(2), Zero, Zero>>) ELSE dM          \* less than one revolution
+          IN arc' = [kind |-> arc.kind, dq |-> dq, r1 |-> rv[1], v1 |-> rv[2], r2 |-> rv2[1], v2 |-> rv2[2],
+                     cd |-> Q(CosQ(dq)), sd |-> Q(SinQ(dq)), tof |-> tof, tm |-> IF dq = 1 THEN 1 ELSE -1, minenergy |-> FALSE]
+     ELSE LET c   == MirrorCos(F)
+              s   == MirrorSin(F)
+              up  == StateAtCS(F, rot, c, s)                    \* nu = pi - atan(...)  (before apoapsis)
+              dn  == StateAtCS(F, rot, c, QNeg(s))              \* nu = pi + atan(...)  (after apoapsis)
+              es  == QMul(F.e, SqrtOneMinusE2(F))
+              short == arc.kind = "meS"
+              \* M(up) = pi - acos e - e s,  M(dn) = pi + acos e + e s
+              tof == IF short THEN <<Zero, Q(2), QMul(Q(2), es)>> ELSE <<Q(2), Q(-2), QMul(Q(-2), es)>>
+              \* transfer angle: short  -2 nu_up  (mod 2 pi),  long  2 nu_up
+              cd  == QMul(QSub(c, s), QAdd(c, s))               \* c^2 - s^2 without squaring the denominators
+              sd  == IF short THEN QMul(Q(-2), QMul(s, c)) ELSE QMul(Q(2), QMul(s, c))
+          IN arc' = [kind |-> arc.kind, dq |-> 0,
+                     r1 |-> IF short THEN up[1] ELSE dn[1], v1 |-> IF short THEN up[2] ELSE dn[2],
+                     r2 |-> IF short THEN dn[1] ELSE up[1], v2 |-> IF short THEN dn[2] ELSE up[2],
+                     cd |-> cd, sd |-> sd, tof |-> tof, tm |-> IF short THEN 1 ELSE -1, minenergy |-> TRUE]
   /\ pc' = "arcdone" /\ UNCHANGED <<fam, rot, q, rv, vec, cls, el, eqe>>
 
 Next == PoseFamily \/ PoseOrient \/ PoseAnomaly \/ Perifocal1 \/ Rotate \/ Vectors \/ Classify
@@ -387,30 +422,42 @@ EqeMatchesCoe == At("done") =>
 
 \* C20: both end points lie on one Keplerian orbit ...
 ArcSameOrbit == pc = "arcdone" =>
-  LET v2 == VectorsOf(Q(F.mu), arc.r2, arc.v2)
-  IN /\ VEq(v2.h, vec.h) /\ VEq(v2.evec, vec.evec) /\ QEq(v2.energy, vec.energy)
-     /\ VEq(arc.r1, rv[1]) /\ VEq(arc.v1, rv[2])
-\* ... and are joined by the Lagrange coefficients of a transfer angle of dq quarter turns:
+  LET w1 == VectorsOf(Q(F.mu), arc.r1, arc.v1)
+      w2 == VectorsOf(Q(F.mu), arc.r2, arc.v2)
+  IN /\ VEq(w1.h, vec.h) /\ VEq(w1.evec, vec.evec) /\ QEq(w1.energy, vec.energy)
+     /\ VEq(w2.h, vec.h) /\ VEq(w2.evec, vec.evec) /\ QEq(w2.energy, vec.energy)
+     /\ (~arc.minenergy => VEq(arc.r1, rv[1]) /\ VEq(arc.v1, rv[2]))
+\* ... and are joined by the Lagrange coefficients of the transfer angle (cd, sd) = (cos, sin):
 \* r2 = f r1 + g v1,  v2 = fdot r1 + gdot v1,  f gdot - fdot g = 1
 ArcLagrange == pc = "arcdone" =>
   LET p    == SemiLatus(F)
-      r1   == vec.rmag
+      r1   == QSqrt(Dot(arc.r1, arc.r1))
       r2   == QSqrt(Dot(arc.r2, arc.r2))
-      cd   == Q(CosQ(arc.dq))
-      sd   == Q(SinQ(arc.dq))
+      cd   == arc.cd
+      sd   == arc.sd
       f    == QSub(One, QMul(QDiv(r2, p), QSub(One, cd)))
-      g    == QDiv(QMul(QMul(r1, r2), sd), HMag(F))
+      g    == QDiv(QMul(r1, QMul(r2, sd)), HMag(F))
       gd   == QSub(One, QMul(QDiv(r1, p), QSub(One, cd)))
       fd   == QDiv(QSub(QMul(f, gd), One), g)
   IN /\ VEq(arc.r2, VAdd(VScale(f, arc.r1), VScale(g, arc.v1)))
      /\ VEq(arc.v2, VAdd(VScale(fd, arc.r1), VScale(gd, arc.v1)))
-     \* the transfer angle really is dq quarter turns, counted in the direction of motion
-     /\ QEq(Dot(arc.r1, arc.r2), QMul(QMul(r1, r2), cd))
-     /\ VEq(Cross(arc.r1, arc.r2), VScale(QDiv(QMul(QMul(r1, r2), sd), cls.hmag), vec.h))
-     /\ arc.tm = (IF arc.dq = 1 THEN 1 ELSE -1)
+     \* the transfer angle, counted in the direction of motion, has this cosine and sine
+     \* (cd^2 + sd^2 = 1 follows from the two lines by Lagrange's identity)
+     /\ QEq(Dot(arc.r1, arc.r2), QMul(r1, QMul(r2, cd)))
+     /\ VEq(Cross(arc.r1, arc.r2), VScale(QDiv(QMul(r1, QMul(r2, sd)), cls.hmag), vec.h))
+     \* told sense: short way iff the transfer angle is below 180 deg
+     /\ arc.tm = (IF QSign(sd) > 0 THEN 1 ELSE -1)
      \* 0 < tof < one period: coefficient check with 3 < pi < 22/7 and 0 < acos(e) <= pi/2
      /\ \/ QSign(arc.tof[2]) = 0 /\ QLt(Zero, arc.tof[1]) /\ QLt(arc.tof[1], Q(2))
         \/ QSign(arc.tof[2]) # 0
+\* the mirror-point arcs lie on the minimum-energy ellipse of their chord: r1 + r2 + chord = 4a,
+\* so their time of flight is Lambert's t_min (where 2 arcsin sqrt(s / 2a) sits exactly at pi)
+ArcMinimumEnergy == pc = "arcdone" =>
+  LET r1    == QSqrt(Dot(arc.r1, arc.r1))
+      r2    == QSqrt(Dot(arc.r2, arc.r2))
+      d     == VSub(arc.r2, arc.r1)
+      chord == QSqrt(Dot(d, d))
+  IN arc.minenergy <=> QEq(QAdd(QAdd(r1, r2), chord), Q(4 * F.a))
 
 NoOverflow == /\ At("eci") => VSmall(rv[1]) /\ VSmall(rv[2])
               /\ At("vectors") => VSmall(vec.h) /\ VSmall(vec.evec) /\ VSmall(vec.node)
@@ -426,7 +473,7 @@ Emit == pc = "done" =>
                              eccanom |-> EccAnomT(F, q), meananom |-> MeanAnomT(F, q)]))
 EmitArc == pc = "arcdone" =>
   PrintT("ARC " \o ToJson([fam |-> fam, mu |-> F.mu, a |-> F.a, e |-> F.e, tu |-> TimeUnit(F), rot |-> rot,
-                           q |-> q, dq |-> arc.dq, tm |-> arc.tm, r1 |-> arc.r1, v1 |-> arc.v1,
+                           q |-> q, kind |-> arc.kind, dq |-> arc.dq, minenergy |-> arc.minenergy, tm |-> arc.tm, r1 |-> arc.r1, v1 |-> arc.v1,
                            r2 |-> arc.r2, v2 |-> arc.v2, tof |-> arc.tof, case |-> el.case, retro |-> el.retro]))
 
 \* which elements each singular case defines (read by the driver for non-lattice orbits, so that
